@@ -92,6 +92,9 @@ structure IEnv where
   isP2sh : Bool := false
   p2shStack : List Bytes := []
   successor : Bytes := []
+  /-- the script before `successor` was a scriptSig, and whether it was push-only -/
+  sigscriptExecuted : Bool := false
+  sigscriptPushonly : Bool := true
   tce : Option Tce := none
 deriving Repr, DecidableEq
 
@@ -126,7 +129,8 @@ def setupEnvironment (stack : List Bytes) (script : Bytes) (flags : Nat) (sv : S
   match IEnv.init stack script flags sv with
   | .error e => .error e
   | .ok e =>
-    if sv == .TAPSCRIPT && scanOpSuccess allowDisabled script then .error .DISCOURAGE_OP_SUCCESS
+    if !successor.isEmpty && hasFlag flags Flag.SIGPUSHONLY && !isPushOnly script then .error .SIG_PUSHONLY
+    else if sv == .TAPSCRIPT && scanOpSuccess allowDisabled script then .error .DISCOURAGE_OP_SUCCESS
     else .ok { e with successor := successor, done := e.done && successor.isEmpty, tce := tce,
                       see := { e.see with allowDisabled := allowDisabled, execdata := execdata,
                                           pretendMap := pretendMap, pretendKeys := pretendKeys } }
@@ -150,29 +154,34 @@ def stepSession (cx : Ctx) (tc : TapCtx) (e : IEnv) : M IEnv :=
       -- Store history entry, execute, (undo the entry on failure: the failure is the result)
       let (see', pc') ← step cx e.see e.pc
       pure { e with see := { see' with opcodePos := see'.opcodePos + 1 }, pc := pc', history := e.snapshot :: e.history, currOpSeq := e.currOpSeq + 1 }
+    -- end of the current script: own conditional nesting and alt stack per script
+    else if !e.see.cond.empty then fail .UNBALANCED_CONDITIONAL
     else if e.isP2sh then do
       match e.see.stack.getLast? with
       | none => fail .EVAL_FALSE
       | some t =>
         if !castToBool t then fail .EVAL_FALSE
         else if isPayToScriptHash e.see.script then
+          if e.sigscriptExecuted && !e.sigscriptPushonly then fail .SIG_PUSHONLY
+          else
           match e.p2shStack.getLast? with
           | none => .error (.abnormal "assert(!stack.empty())")
           | some redeem =>
             pure { e with isP2sh := false,
-                          see := { e.see with stack := e.p2shStack.dropLast, script := redeem, pbegincodehash := redeem, nOpCount := 0 },
+                          see := { e.see with stack := e.p2shStack.dropLast, script := redeem, pbegincodehash := redeem, nOpCount := 0,
+                                              altstack := [] },
                           pc := redeem, currOpSeq := e.currOpSeq + 1 }
         else fail .BAD_OPCODE
     else if !e.successor.isEmpty then
       let script := e.successor
       let isp := p2shPattern e.see.flags script
-      pure { e with see := { e.see with script := script, pbegincodehash := script, nOpCount := 0 },
+      pure { e with sigscriptExecuted := true, sigscriptPushonly := isPushOnly e.see.script,
+                    see := { e.see with script := script, pbegincodehash := script, nOpCount := 0, altstack := [] },
                     successor := [], pc := script, currOpSeq := e.currOpSeq + 1,
                     isP2sh := isp, p2shStack := if isp then e.see.stack else e.p2shStack }
     else
       -- we are at end; set done var
-      if !e.see.cond.empty then fail .UNBALANCED_CONDITIONAL
-      else pure { e with done := true }
+      pure { e with done := true }
 
 /-- `Instance::step()` (one step): refuses when done; a C++ exception becomes a failed step -/
 def instStep (cx : Ctx) (tc : TapCtx) (e : IEnv) : M IEnv :=
